@@ -4,6 +4,7 @@
  *   F <hex>                  KSI_FTLV_memRead / memReadN                                         -> F rc=.. tag nc fw hdr dat n=..
  *   B <bufsize> <spec...>    build a KSI_TLV tree and KSI_TLV_writeBytes into a buffer of that size; spec (prefix):
  *                            L tag nc fw hex | R tag nc fw len | N tag nc fw k <k children>    -> B rc=.. len=.. head=.. rt=.. alloc=..
+ *   X <roottag> <op>...      KSI_TlvElement editing interface (append / set / setOctetString / remove at a path), root serialized after every op
  *   S <hex>                  KSI_FTLV_fileRead repeatedly on a stream                           -> S n,n,... rc=..
  *   K <hex>                  KSI_FTLV_socketRead repeatedly on a socketpair                     -> K n,n,... rc=..
  */
@@ -122,6 +123,43 @@ int main(void) {
 				KSI_TlvElement_free(e);
 			}
 			free(raw);
+		} else if (line[0] == 'X') {
+			/* X <roottag> <op>...   the editing interface of the element codec; op = a:<path>:<elhex> (appendElement of the parsed element)
+			 * | s:<path>:<elhex> (setElement) | o:<path>:<tag>:<valhex|-> (setOctetString) | r:<path>:<tag> (removeElement); path = - (root) or i.j...
+			 * after every op: rc, the size query and the serialization of the root (into a buffer of exactly the queried size)  -> X rc,q:len,rc:hex ... */
+			KSI_TlvElement *root = NULL; unsigned char *keep[64]; int nk = 0, k; char *sv = NULL, *t;
+			KSI_TlvElement_new(&root);
+			t = strtok_r(line + 2, " \n", &sv); root->ftlv.tag = (unsigned)atoi(t);
+			printf("X");
+			while ((t = strtok_r(NULL, " \n", &sv)) != NULL && nk < 60) {
+				char op = t[0]; char *f[4] = {0}; int nf = 0; char *sv2 = NULL, *q; KSI_TlvElement *par = KSI_TlvElement_ref(root); int rc = KSI_OK;
+				for (q = strtok_r(t + 2, ":", &sv2); q && nf < 4; q = strtok_r(NULL, ":", &sv2)) f[nf++] = q;
+				if (strcmp(f[0], "-")) { char *sv3 = NULL, *ix;
+					for (ix = strtok_r(f[0], ".", &sv3); ix; ix = strtok_r(NULL, ".", &sv3)) { KSI_TlvElement *c = NULL;
+						if (par->subList == NULL || KSI_TlvElementList_elementAt(par->subList, (size_t)atoi(ix), &c) != KSI_OK || c == NULL) { rc = -9; break; }
+						c = KSI_TlvElement_ref(c); KSI_TlvElement_free(par); par = c; } }
+				if (rc == KSI_OK) {
+					if (op == 'a' || op == 's') { size_t l = 0; unsigned char *raw = hx_dec(f[1], &l); KSI_TlvElement *e = NULL; keep[nk++] = raw;
+						rc = KSI_TlvElement_parse(raw, l, &e);
+						if (rc == KSI_OK) rc = op == 'a' ? KSI_TlvElement_appendElement(par, e) : KSI_TlvElement_setElement(par, e);
+						KSI_TlvElement_free(e);
+					} else if (op == 'o') { size_t l = 0; unsigned char *raw = strcmp(f[2], "-") ? hx_dec(f[2], &l) : H_MALLOC(1); KSI_OctetString *os = NULL;
+						rc = KSI_OctetString_new(ctx, raw, l, &os); free(raw);
+						if (rc == KSI_OK) rc = KSI_TlvElement_setOctetString(par, (unsigned)atoi(f[1]), os);
+						KSI_OctetString_free(os);
+					} else if (op == 'r') { KSI_TlvElement *gone = NULL; rc = KSI_TlvElement_removeElement(par, (unsigned)atoi(f[1]), &gone); KSI_TlvElement_free(gone); }
+					else rc = -8;
+				}
+				KSI_TlvElement_free(par);
+				{ size_t ql = 0, sl = 0; int qr = KSI_TlvElement_serialize(root, NULL, 0, &ql, 0), sr = -1; unsigned char *buf = NULL;
+					printf(" %d,%d:%lu,", rc, qr, (unsigned long)ql);
+					if (qr == KSI_OK && ql <= 0x20000) { buf = H_MALLOC(ql + 1); sr = KSI_TlvElement_serialize(root, buf, ql, &sl, 0); }
+					printf("%d:", sr); if (sr == KSI_OK) hx_print(buf, sl); else printf("-");
+					free(buf); }
+			}
+			printf("\n");
+			KSI_TlvElement_free(root);
+			for (k = 0; k < nk; k++) free(keep[k]);
 		} else if (line[0] == 'T') {
 			/* T <hex>: parse, then render with KSI_TLV_toString into heap buffers of EXACTLY n bytes for many n (ASan sees a write past the buffer);
 			 * every rendering must be NUL-terminated inside its buffer and a prefix of the full rendering -> T rc=.. full=<len> bad=<count> */
